@@ -15,6 +15,7 @@
 //	-prop c13   the SCION client with DRKey authentication enabled only (client clause of C13), incl. re-framed datagrams
 //	-prop c11   the NTS clients' cookie pool along histories of exchanges with unauthenticated
 //	            datagrams in front of / instead of the genuine reply (client clauses of C11; driver drv_c11)
+//	-prop c11origin  the pool when datagrams that authenticate but do not echo the request precede the genuine reply (driver drv_c03)
 //	-prop c20   destination of the NTS-protected request for every kind of server / port an
 //	            NTS key exchange may name (client clause of C20)
 package main
@@ -143,8 +144,6 @@ func gen(c *lib.Ctx) {
 		genHistWrap(c, "c03histwrap-ip", false)
 		genHistWrap(c, "c03histwrap-scion", true)
 		genHdr(c, "c03hdr")
-		genPoolOrigin(c, "c11origin-ip", false)
-		genPoolOrigin(c, "c11origin-scion", true)
 	case "c05":
 		genC05IP(c)
 		genWrapIP(c)
